@@ -6,6 +6,7 @@ import (
 	"bytes"
 	"context"
 	"errors"
+	"net"
 	"net/netip"
 	"os"
 	"sync/atomic"
@@ -27,6 +28,7 @@ type sessionUplinkMmsg struct {
 	natConnSendCh  <-chan *sessionQueuedPacket
 	natConnPacker  zerocopy.ClientPacker
 	natTimeout     time.Duration
+	state          *atomic.Pointer[net.UDPConn]
 	username       string
 	relayBatchSize int
 	logger         *zap.Logger
@@ -380,6 +382,7 @@ func (s *UDPSessionRelay) recvFromServerConnRecvmmsg(ctx context.Context, lnc *u
 							natConnSendCh:  natConnSendCh,
 							natConnPacker:  clientSession.Packer,
 							natTimeout:     lnc.natTimeout,
+							state:          &entry.state,
 							username:       entry.username,
 							relayBatchSize: lnc.relayBatchSize,
 							logger:         lnc.logger,
@@ -547,7 +550,7 @@ main:
 			burstBatchSize = max(burstBatchSize, n)
 		}
 
-		if err := uplink.natConn.SetReadDeadline(time.Now().Add(uplink.natTimeout)); err != nil {
+		if err := extendNATConnReadDeadline(uplink.natConn.UDPConn, uplink.state, uplink.natTimeout); err != nil {
 			uplink.logger.Error("Failed to set read deadline on natConn",
 				zap.Stringer("clientAddress", &queuedPacket.clientAddrPort),
 				zap.String("username", uplink.username),
